@@ -120,7 +120,14 @@ def run_unit(unit, rng, ctx):
                 continue
             if rng.uniform() < 0.3:
                 _ = traj.displacements  # history: the source was last used in displacement representation
-            out = radial_distribution_between_species(trajectory=traj, specie_1=s1, specie_2=s2, max_dist=max_dist, resolution=res)
+            form = int(rng.integers(4))
+            a1 = s1 if form % 2 == 0 else [s1]
+            a2 = s2 if form < 2 else (s2,)
+            if rng.integers(2):
+                out = traj.radial_distribution_between_species(specie_1=a1, specie_2=a2, max_dist=max_dist, resolution=res)
+                ctx.count('via_Trajectory.radial_distribution_between_species')
+            else:
+                out = radial_distribution_between_species(trajectory=traj, specie_1=a1, specie_2=a2, max_dist=max_dist, resolution=res)
             d = D[:, idx[s1]][:, :, idx[s2]].ravel()
             selfpairs = int(np.sum(d == 0)) if s1 == s2 else 0
             cnt, amb = hist_halfopen_left(d[d > 0] if s1 == s2 else d, res, nb)
@@ -173,7 +180,11 @@ def run_unit(unit, rng, ctx):
         elif hist_q == 'diff_displacements':
             _ = tr.diff_trajectory.displacements
         ctx.count(f'query_before_rdf:{hist_q}')
-        rd = radial_distribution(transitions=tr, floating_specie='Li', max_dist=max_dist, resolution=res)
+        if rng.integers(2):
+            rd = tr.radial_distribution(floating_specie='Li', max_dist=max_dist, resolution=res)
+            ctx.count('via_Transitions.radial_distribution')
+        else:
+            rd = radial_distribution(transitions=tr, floating_specie='Li', max_dist=max_dist, resolution=res)
         what += f' [after {hist_q}]' if hist_q != 'none' else ''
     states = np.asarray(tr.states)
     prev = models.ffill_model(states)
